@@ -48,8 +48,6 @@ Edges the statement does not pin are CHOICE POINTS (every resolution is an accep
   * what a STOP issued while the trap is OFF remembers (mode 'stopped-off': an occurrence may be
     remembered or lost);
   * the order in which several traps that fire at the same boundary run;
-  * whether an occurrence that arrives while an error handler is active is handled after RESUME
-    or dropped (it may not be handled *during* the error handler);
   * whether <event> OFF discards an occurrence remembered during STOP (so that a later ON does not
     handle it) or keeps it.
 """
@@ -153,7 +151,7 @@ def simulate(prog, schedule, chooser, post_tags=('zz',), max_steps=400):
              'unhandled_at_end': 0, 'unpinned_stop_while_off': 0,
              'redefinitions': 0, 'redefinitions_in_nontrivial_state': 0, 'handlers_left_by_return_line': 0,
              'plain_gosub_levels_inside_handler': 0, 'handlers_abandoned_by_resume_line': 0,
-             'entries_after_return_line': 0}
+             'entries_after_return_line': 0, 'entries_after_resume': 0}
     b = 0
     while True:
         b += 1
@@ -173,10 +171,12 @@ def simulate(prog, schedule, chooser, post_tags=('zz',), max_steps=400):
                     how[n] = 'stop-off'
                 continue
             if in_error:
+                # occurred while ON / STOPped: remembered; it may not be handled while the error handler is active
+                # and is handled once after RESUME (if the trap is then on and not blocked)
                 stats['during_error'] += 1
                 if pending[n] is not True:
-                    pending[n] = 'maybe'
                     how[n] = 'error'
+                pending[n] = True
             else:
                 if mode[n] == 'stopped':
                     stats['remembered_stop'] += 1
@@ -209,6 +209,8 @@ def simulate(prog, schedule, chooser, post_tags=('zz',), max_steps=400):
                 pending[n] = False
                 if how[n] == 'stop':
                     stats['entries_after_stop_on'] += 1
+                if how[n] == 'error':
+                    stats['entries_after_resume'] += 1
                 if left_by_line[n]:
                     stats['entries_after_return_line'] += 1
                 if any(f[1] == n for f in stack):
@@ -378,6 +380,8 @@ def diagnose(prog, results, observed):
         for _, bnd, s in snaps:
             if s[n][1]:
                 how = s[n][3]
+        if how == 'error':
+            return 'occurrence-during-error-handler-forgotten', 'occurrence of %s while the ON ERROR handler was active was not handled after RESUME (trace position %d)' % (n, i)
         if how == 'stop':
             return 'stopped-occurrence-forgotten-after-on', 'occurrence of %s remembered during STOP was not handled after ON (trace position %d)' % (n, i)
         if how == 'handler':
